@@ -806,6 +806,56 @@ theorem C07_quiet_component_quantity (s s1 s2 s3 : BP α) (body : Body) (vt ut :
     rw [← timerP_cut hc, q3.1] at ht
     exact ⟨ht.2, (q3.trans ht.1).2.2⟩
 
+/-- **A plain cookware item (or ingredient) with a bare number `{n}` is quiet** (parser part), for every
+    extension set.  The quantity tokens contain no blank, word or `%`, do not start with `=`, and read as
+    a well-formed number or range (`#pot{2}`, `@eggs{1/2}`, `#pan{2-3}` with RANGE_VALUES): the parsers
+    return the component with a unit-less quantity and push NO event at all. -/
+theorem C07_quiet_component_number (s s1 s2 s3 s4 : BP α) (body : Body) (note : Option Text) (t0 : Tok)
+    (tl : List Tok) (hq : body.quantity = some (t0 :: tl))
+    (ha : s.ext.has Gen.EXT_COMPONENT_ALIAS = false ∨ ∀ t ∈ body.name, t.kind ≠ .or)
+    (hn : (buildText (curOff s2) body.name).isTextEmpty s.cs = false) (hnote : noteP s3 = (note, s4))
+    (hws : isWsComment t0.kind = false) (heq : t0.kind ≠ .eq)
+    (hk : ∀ t ∈ t0 :: tl, t.kind ≠ .percent ∧ t.kind ≠ .word ∧ t.kind ≠ .ws)
+    (hval : ∃ v, numOrRange (α := α) (s.ext.has Gen.EXT_RANGE_VALUES) (t0 :: tl) = some (.ok v)) :
+    (Cut .hash s [] body s1 s2 s3 →
+      (∃ q, (cookwareP s).1 = some (.cookware
+        ⟨⟨⟨Modifiers.empty, Span.pos (curOff s1)⟩, buildText (curOff s2) body.name, none, some q, note⟩,
+         ⟨curOff s, curOff s4⟩⟩)) ∧ (cookwareP s).2.evs = s.evs) ∧
+    (Cut .at s [] body s1 s2 s3 →
+      (∃ q, (ingredientP s).1 = some (.ingredient
+        ⟨⟨⟨Modifiers.empty, Span.pos (curOff s1)⟩, none, buildText (curOff s2) body.name, none, some q, note⟩,
+         ⟨curOff s, curOff s4⟩⟩)) ∧ (ingredientP s).2.evs = s.evs) := by
+  have hQ : ∀ sq : BP α, Same s sq → Sat (parseQuantity (α := α) (t0 :: tl)) sq
+      (fun r sq' => Same sq sq' ∧ r.quantity.val.unit = none) := by
+    intro sq q
+    exact parseQuantity_quiet_num t0 tl sq hws heq hk (by rw [q.2.1]; exact hval)
+  constructor
+  · intro hc
+    have q4 : Same s s4 := hc.same.trans (noteP_same hnote)
+    have ht := cookwareTail_quiet_q (α := α) (curOff s) (curOff s4) (curOff s1) (curOff s2) body note s4 _ hq
+      (by rw [q4.2.1]; exact ha) (by rw [q4.1]; exact hn) (fun sq qq => hQ sq (q4.trans qq))
+    unfold Sat at ht
+    rw [← cookwareP_cut hc hnote] at ht
+    exact ⟨ht.2, (q4.trans ht.1).2.2⟩
+  · intro hc
+    have q4 : Same s s4 := hc.same.trans (noteP_same hnote)
+    have ht := ingredientTail_quiet_q (α := α) (curOff s) (curOff s4) (curOff s1) (curOff s2) body note s4 _ hq
+      (by rw [q4.2.1]; exact ha) (by rw [q4.1]; exact hn)
+      (fun sq qq => Sat.mono (hQ sq (q4.trans qq)) (fun _ _ h => h.1))
+    unfold Sat at ht
+    rw [← ingredientP_cut hc hnote] at ht
+    exact ⟨ht.2, (q4.trans ht.1).2.2⟩
+
+/-! non-vacuity: `#pot{2}` with ADVANCED_UNITS on -/
+def C07_exPot : BP Rat :=
+  ⟨[⟨.hash, ['#'], 0⟩, ⟨.word, ['p', 'o', 't'], 1⟩, ⟨.openBrace, ['{'], 4⟩, ⟨.int, ['2'], 5⟩,
+    ⟨.closeBrace, ['}'], 6⟩], 0, ⟨Gen.EXT_ADVANCED_UNITS⟩, toyCharSpec, #[], none⟩
+example : ∃ body note s1 s2 s3 s4, Cut .hash C07_exPot [] body s1 s2 s3 ∧ noteP s3 = (note, s4) ∧
+    body.quantity = some [⟨.int, ['2'], 5⟩] ∧
+    (buildText (curOff s2) body.name).isTextEmpty C07_exPot.cs = false ∧
+    (∃ v, numOrRange (α := Rat) (C07_exPot.ext.has Gen.EXT_RANGE_VALUES) [⟨.int, ['2'], 5⟩] = some (.ok v)) :=
+  ⟨_, _, _, _, _, _, ⟨⟨_, rfl⟩, rfl, rfl⟩, rfl, rfl, rfl, _, rfl⟩
+
 /-! non-vacuity: `@salt{1%g}` and `~{1%min}`, every extension on or off (here: off) -/
 def C07_exSaltQ : BP Rat :=
   ⟨[⟨.at, ['@'], 0⟩, ⟨.word, ['s', 'a', 'l', 't'], 1⟩, ⟨.openBrace, ['{'], 5⟩, ⟨.int, ['1'], 6⟩,
